@@ -3,8 +3,12 @@ package props
 import (
 	"bytes"
 	"context"
+	"errors"
 	"fmt"
 	"strings"
+
+	"github.com/jeroenrinzema/psql-wire/codes"
+	psqlerr "github.com/jeroenrinzema/psql-wire/errors"
 
 	wire "github.com/jeroenrinzema/psql-wire"
 	"github.com/jeroenrinzema/psql-wire/pkg/buffer"
@@ -20,7 +24,7 @@ func init() {
 		ID:        "C17",
 		Level:     "exploration",
 		Technique: "exhaustive enumeration of all decorator nestings up to a depth bound, each executed on the real ErrorCode / live session and compared with an independent outermost-first reference walk",
-		Rule: "every sequence (innermost first) of length <= depth over 25 decorator letters {2 codes, 2 severities, 3 hints, 3 details (one each with % verbs), 2 constraint names, 5 source locations + 1 sharing file and line with another + 2 with an empty file / function, 4 default- or empty-valued decorations, fmt %w wrap} x 5 base texts (incl. the empty text and one with % verbs), plus the nil error; consecutive: every 1-letter error followed by every error of <= 2 letters, the second one checked; " +
+		Rule: "every sequence (innermost first) of length <= depth over 25 decorator letters {2 codes, 2 severities, 3 hints, 3 details (one each with % verbs), 2 constraint names, 5 source locations + 1 sharing file and line with another + 2 with an empty file / function, 4 default- or empty-valued decorations, fmt %w wrap} x 5 base texts (incl. the empty text and one with % verbs), plus the nil error; consecutive: every 1-letter error followed by every error of <= 2 letters, the second one checked; text-length: each of message / hint / detail / constraint / source file / source function at every length 1..130 and around 256, 1024, 4096; " +
 			"a case is non-trivial when it carries at least one decoration; distinct = distinct (base, shape)",
 		Assumptions: []string{"decoration values are non-empty and NUL-free", "a ReadyForQuery after the ErrorResponse written by ErrorCode is tolerated, not required"},
 		Enumerate:   c17Enumerate,
@@ -165,6 +169,41 @@ func c17Enumerate(tier string, emit explore.Emit) {
 				}})
 		})
 	})
+	// every text field at every length around the sizes of the writer's internal buffers
+	for _, n := range c05TagLengths() {
+		if n == 0 {
+			continue
+		}
+		n := n
+		for which := 0; which < 6; which++ {
+			which := which
+			emit(explore.Case{Family: "text-length", Size: 5,
+				Desc: func() any {
+					return map[string]any{"field": []string{"message", "hint", "detail", "constraint", "source file", "source function"}[which], "length": n, "other_fields": "3 bytes each"}
+				},
+				Run: func() explore.Result {
+					var res explore.Result
+					res.Outcome = "decorated"
+					res.Key = fmt.Sprint("len", which, n)
+					txt := func(i int, c byte) string {
+						if i == which {
+							return strings.Repeat(string(c), n)
+						}
+						return strings.Repeat(string(c), 3)
+					}
+					err := error(errors.New(txt(0, 'm')))
+					err = psqlerr.WithHint(err, txt(1, 'h'))
+					err = psqlerr.WithDetail(err, txt(2, 'd'))
+					err = psqlerr.WithConstraintName(err, txt(3, 'k'))
+					err = psqlerr.WithSource(err, txt(4, 'f'), 7, txt(5, 'r'))
+					err = psqlerr.WithCode(err, codes.UniqueViolation)
+					var sink bytes.Buffer
+					wire.ErrorCode(buffer.NewWriter(harness.Quiet, &sink), err)
+					c17Check(&res, sink.Bytes(), map[byte]string{'S': "ERROR", 'C': "23505", 'M': txt(0, 'm'), 'H': txt(1, 'h'), 'D': txt(2, 'd'), 'n': txt(3, 'k'), 'F': txt(4, 'f'), 'L': "7", 'R': txt(5, 'r')})
+					return res
+				}})
+		}
+	}
 	// once per shape through a live session, as a statement error
 	forShapes(len(ds), sdepth, func(sh []int) {
 		shape := append([]int(nil), sh...)
